@@ -1,6 +1,7 @@
 """Contains the Util class which includes many utility functions."""
 from collections.abc import Iterable as IterableCollection
 from copy import deepcopy
+from decimal import Decimal, InvalidOperation
 import importlib
 import re
 from fractions import Fraction
@@ -596,21 +597,29 @@ class Util:
             return int(time_string[:-4])
 
         if time_string.endswith('D'):
-            return int(float(time_string[:-1]) * 86400 * 1000)
+            return Util._scale_time(time_string[:-1], 86400 * 1000)
 
         if time_string.endswith('H'):
-            return int(float(time_string[:-1]) * 3600 * 1000)
+            return Util._scale_time(time_string[:-1], 3600 * 1000)
 
         if time_string.endswith('M'):
-            return int(float(time_string[:-1]) * 60 * 1000)
+            return Util._scale_time(time_string[:-1], 60 * 1000)
 
         if time_string.endswith('S'):
-            return int(float(time_string[:-1]) * 1000)
+            return Util._scale_time(time_string[:-1], 1000)
 
         if time_string.endswith('SEC'):
-            return int(float(time_string[:-3]) * 1000)
+            return Util._scale_time(time_string[:-3], 1000)
 
         return int(time_string)
+
+    @staticmethod
+    def _scale_time(value: str, factor: int) -> int:
+        """Multiply a decimal string exactly (binary floats turn 1.001 * 1000 into 1000.9999)."""
+        try:
+            return int(Decimal(value.strip()) * factor)
+        except InvalidOperation:
+            raise ValueError("Cannot convert {} to a number".format(value))
 
     @staticmethod
     def string_to_secs(time_string: str) -> float:
